@@ -6,7 +6,8 @@ item assignment on a tuple / str, dict.popitem, set.isdisjoint / set ordering / 
 effects and are not consumed completely at once (any / all short-circuit, lazy map), a stored generator expression whose
 free variables are rebound, a closure over a comprehension variable called later, keys changed (same size) while a
 dictionary is iterated, a dictionary that grows inside the comprehension iterating it, symbolic repeat counts ("ab" * n),
-str % float, reflected ordering (int < obj), `del name` followed by a read.
+str % float.  (reflected ordering `int < obj` and `del name` followed by a read are modelled since the merge of audit-B: those
+two lemmas moved to dunder_protocols.py and scoping_and_laziness.py.)
 
   cp tools/selftest/refused_constructs.py contracts/T00_refused.py
   python3-vt -m pyvc.run contracts/T00_refused.py
@@ -106,14 +107,6 @@ def _note(log, v):
 def _grow(d, k):
     d[k + "x"] = 1
     return k
-
-
-class V:
-    def __init__(self, v):
-        self.v = v
-
-    def __gt__(self, o):
-        return self.v > o
 
 
 class Counter:
@@ -480,12 +473,6 @@ def set_ordering(n: int):
 
 
 @lemma
-def reflected_ordering(n: int):
-    assert 1 < V(n + 2) or n + 2 <= 1
-    assert (n < V(n + 1))
-
-
-@lemma
 def string_formatting(n: int):
     assert "%d-%s" % (3, "x") == "3-x" and "%5.2f" % 3.14159 == " 3.14" and "%03d" % 7 == "007" and "%s" % "a" == "a" and "%d%%" % 5 == "5%"
     assert "%s" % (1,) == "1" and "%r" % "a" == "'a'" and "%-4d|" % 7 == "7   |" and "%x" % 255 == "ff" and "%e" % 1234.5 == "1.234500e+03"
@@ -539,15 +526,44 @@ def string_and_tuple_are_immutable(n: int):
     assert r == 3
 
 
+# ---- added with the merge of audit-B: the edge of the iterator model (an iterator argument is consumed completely, at once)
 @lemma
-def del_name_and_rebinding(n: int):
-    x = [n]
-    y = x
-    del x
-    assert y == [n]
-    r = 0
-    try:
-        z = x
-    except NameError:
-        r = 1
-    assert r == 1
+def iterator_shared_with_a_lazy_map(n: int):
+    it = iter([1, 2, 3])
+    m = map(lambda q: q + n, it)
+    assert next(it) == 1, "map has not taken anything yet"
+    assert list(m) == [2 + n, 3 + n]
+
+
+@lemma
+def zip_leaves_the_rest_of_a_longer_iterator(n: int):
+    a = iter([1, 2, n])
+    assert list(zip(a, [0])) == [(1, 0)]
+    assert next(a) == n, "zip took two items from a (the second one is lost), not all three"
+
+
+@lemma
+def islice_leaves_the_rest_of_the_iterator(n: int):
+    import itertools
+
+    a = iter([1, n, 3])
+    assert list(itertools.islice(a, 1)) == [1] and next(a) == n
+
+
+class _LoggingBag:
+    def __init__(self, items):
+        self.items = items
+        self.log = []
+
+    def __iter__(self):
+        for v in self.items:
+            self.log.append(v)
+            yield v
+
+
+@lemma
+def implicit_generator_with_effects(n: int):
+    b = _LoggingBag([n, 2, 3])
+    for v in b:
+        break
+    assert b.log == [n], "the generator behind __iter__ ran only up to its first yield"
